@@ -21,6 +21,9 @@ def generate(G):
     conv("1x3x3_1x1x2x2_s11", [1, 3, 3], [1, 1, 2, 2], (1, 1), "quick")
     conv("1x2x4_1x1x2x2_s12", [1, 2, 4], [1, 1, 2, 2], (1, 2), "quick")
     conv("1x3x2_1x1x1x2_s21", [1, 3, 2], [1, 1, 1, 2], (2, 1), "quick")
+    conv("1x3x3_1x1x2x2_s12_onecol", [1, 3, 3], [1, 1, 2, 2], (1, 2), "quick")     # one output column, filter narrower than the image
+    conv("1x3x3_1x1x2x2_s21_onerow", [1, 3, 3], [1, 1, 2, 2], (2, 1), "thorough")
+    conv("1x2x5_1x1x2x3_s13_onecol", [1, 2, 5], [1, 1, 2, 3], (1, 3), "thorough", dom="D2")
     conv("1x2x4_1x1x1x2_s13_uneven", [1, 2, 4], [1, 1, 1, 2], (1, 3), "quick")
     conv("2x2x2_2x2x1x2_s11", [2, 2, 2], [2, 2, 1, 2], (1, 1), "quick")
     conv("b1_1x2x3_1x1x2x2_s11", [1, 1, 2, 3], [1, 1, 2, 2], (1, 1), "quick")
